@@ -431,15 +431,20 @@ Definition forbidden_trailers : list str := [bs "Transfer-Encoding"; bs "Trailer
 (* reverseproxy.go:532-551: after the body, res.Trailer (announced keys minus those ModifyResponse
    deleted, merged with the received trailer fields) is copied into the writer's header map
    as is when every received key was announced, with http.TrailerPrefix otherwise *)
+(* res.Trailer's keys after ModifyResponse: the announced names minus the deleted ones *)
+Definition ann_after (tdeleted announced : list str) : list str :=
+  filter (fun k => negb (mem_str k (map canon tdeleted))) (map canon announced).
+
 Definition trailers_into {A} (tdeleted announced : list str) (tr h : hdr A) : hdr A :=
-  let ann := filter (fun k => negb (mem_str k (map canon tdeleted))) (map canon announced) in
+  let ann := ann_after tdeleted announced in
   if forallb (fun kvs => mem_str (fst kvs) ann) tr then copy_header h tr
   else fold_left (fun d kvs => fold_left (fun d v => hadd (trailer_prefix ++ fst kvs) v d) (snd kvs) d) tr h.
 
-Definition announce (announced : list str) (h : hdr hval) : hdr hval :=
-  match announced with
+(* reverseproxy.go:509-516: the Trailer header is rebuilt from res.Trailer's keys (after ModifyResponse) *)
+Definition announce (ann : list str) (h : hdr hval) : hdr hval :=
+  match ann with
   | [] => h
-  | _ => hadd k_trailer (VStr (join [44;32] (map canon announced))) h   (* key order is map order in Go; never compared *)
+  | _ => hadd k_trailer (VStr (join [44;32] ann)) h   (* key order is map order in Go; never compared *)
   end.
 
 (* ReverseProxy.ServeHTTP behind (replace = true) or not behind http.TimeoutHandler.
@@ -457,14 +462,46 @@ Definition forward (deleted tdeleted : list str) (replace : bool) (u : upstream)
             if replace then
               (* the reverse proxy writes into timeoutWriter's private map tw.h (1xx responses are
                  copied into it and cleared again); on completion tw.h is assigned key-wise *)
-              let tw := trailers_into tdeleted (u_announced u) tr (announce (u_announced u) (copy_header [] uh)) in
+              let tw := trailers_into tdeleted (u_announced u) tr
+                          (announce (ann_after tdeleted (u_announced u)) (copy_header [] uh)) in
               Resp (u_status u) (merge_replace outer tw)
             else
               (* Got1xxResponse: copyHeader(h, 1xx header); rw.WriteHeader(code); clear(h) — on the
                  real writer's map, which already holds what the middleware chain set *)
               let outer1 := match u_n1xx u with O => outer | S _ => [] end in
               (* headers are sent at WriteHeader; trailers copied later do not change them *)
-              Resp (u_status u) (announce (u_announced u) (copy_header outer1 uh))
+              Resp (u_status u) (announce (ann_after tdeleted (u_announced u)) (copy_header outer1 uh))
+        end
+  end.
+
+(* What the CLIENT receives in the chunked trailer section for field name k (these are not
+   response header fields). net/http server, response.finalTrailers (server.go): every key
+   "Trailer:"+k of the handler's header map, then, for names declared in the Trailer header at
+   WriteHeader time, the map's values for k when the handler returns.
+   Behind TimeoutHandler everything is merged into the real map before WriteHeader; otherwise the
+   reverse proxy copies the upstream's trailers into the real map after the body. Assumes the
+   upstream's configuration does not itself override "Trailer". *)
+Definition trailer_get (declared : list str) (hf : hdr hval) (k : str) : list hval :=
+  hget (trailer_prefix ++ k) hf ++ (if mem_str k declared then hget k hf else []).
+
+Definition forward_trailers (deleted tdeleted : list str) (replace : bool) (u : upstream) (outer : hdr hval)
+    (k : str) : list hval :=
+  match read_lines VStr (u_lines u) [] with
+  | None => []
+  | Some uh0 =>
+      if existsb (fun k => mem_str (canon k) forbidden_trailers) (u_announced u) then []
+      else
+        let uh := fold_left (fun h k => hdel k h) deleted (remove_hop hval_str uh0) in
+        let ann := ann_after tdeleted (u_announced u) in
+        match read_lines VStr (u_trailers u) [] with
+        | None => []
+        | Some tr =>
+            if replace then
+              trailer_get ann (merge_replace outer
+                (trailers_into tdeleted (u_announced u) tr (announce ann (copy_header [] uh)))) k
+            else
+              let outer1 := match u_n1xx u with O => outer | S _ => [] end in
+              trailer_get ann (trailers_into tdeleted (u_announced u) tr (announce ann (copy_header outer1 uh))) k
         end
   end.
 
@@ -528,6 +565,18 @@ Definition proxy_handle (tbl : list (str * str)) (hsts : str * str) (deleted tde
              (fold_left (apply_op cfg (q_host q)) (pre_ops cookies user ++ lclass_ops c loc (q_get q)) h)
     | OForward cookies user u =>
         forward deleted tdeleted (c_replace cfg) u (fold_left (apply_op cfg (q_host q)) (pre_ops cookies user) h)
+    end.
+
+(* trailer fields the client receives for name k: only a forwarded response has any *)
+Definition proxy_trailers (tbl : list (str * str)) (hsts : str * str) (deleted tdeleted : list str)
+    (cfg : config) (q : request) (o : outcome) (k : str) : list hval :=
+  if c_secure cfg && needs_redirect q then []
+  else
+    match o with
+    | OLocal _ _ _ _ => []
+    | OForward cookies user u =>
+        forward_trailers deleted tdeleted (c_replace cfg) u
+          (fold_left (apply_op cfg (q_host q)) (pre_ops cookies user) (chain_headers tbl hsts cfg)) k
     end.
 
 (* ------------------------------------------------------------------------------------------ *)
